@@ -156,13 +156,16 @@ def run(ctx, prop):
             if k not in seen:
                 seen[k] = len(uniq)
                 uniq.append(u)
-        ulines, ubad, _ = run_pipeline(ctx, uniq[:4000], 0, "shrink")
-        # ulines[0] is the vdict line; unit j is line j+1
+        # identical units are run once; batches keep each harness / TLC round bounded
+        ubad = {}
+        B = 4000
+        for b0 in range(0, len(uniq), B):
+            _, ub, _ = run_pipeline(ctx, uniq[b0:b0 + B], 0, "shrink%d" % (b0 // B))
+            for j, r in ub.items():
+                ubad[b0 + j - 1] = r          # line 0 of every batch is the vdict line
         for (u, (i, rs)) in zip(units, owner):
             j = seen[json.dumps(u, sort_keys=True)]
-            if j >= 4000:
-                continue
-            ur = [r for r in ubad.get(j + 1, []) if r in rs]
+            ur = [r for r in ubad.get(j, []) if r in rs]
             if ur:
                 attributed.setdefault(i, []).append((u["m"]["avps"][0], ur))
     for line, rs, n in direct:
